@@ -277,7 +277,8 @@ def gen_case(rng):
             rows.append(r)
         return {'kind': 'table', 'pattern': '/'.join(segs), 'rows': rows, 'as_dictable': rng.random() < 0.5}
     root = rng.choice(['dict', 'dict', 'Dict', 'dictattr'])
-    keys = DOTTED if rng.random() < 0.2 else KEYS
+    r_ = rng.random()
+    keys = DOTTED if r_ < 0.2 else (['tree', 'ignore', 'types', 'items', 'data', 'key'] if r_ < 0.28 else KEYS)     # keys called like the parameters of the tree functions
     case = {'kind': 'tree', 't': gen_tree(rng, rng.randint(1, 4), root, keys)}
     if rng.random() < 0.06:
         case['t'] = {} if root == 'dict' else {'$' + root: {}}       # an empty starting tree
